@@ -16,8 +16,6 @@ import json, os, re
 import vlib
 from checks import tt_common as T
 
-OVERLAY2 = dict(T.OVERLAY)
-OVERLAY2["zz_verif_metricsconc_test.go"] = os.path.join(vlib.HARNESS, "overlay", "prometheus", "zz_verif_metricsconc_test.go")
 REPO_MOD = "github.com/Jigsaw-Code/outline-ss-server/"
 
 
@@ -48,12 +46,7 @@ def parse_races(out):
 
 
 def concurrent(ctx, shape, idx):
-    d = ctx.sub("mconc%d" % idx)
-    cfgp = os.path.join(d, "cfg.json")
-    outp = os.path.join(d, "out.ndjson")
-    json.dump(shape, open(cfgp, "w"))
-    rc, out = vlib.go_overlay_test(ctx, "prometheus", OVERLAY2, "^TestVerifMetricsConcurrent$", race=True, timeout=900,
-                                   env_extra={"VERIF_MC_OUT": outp, "VERIF_MC_CFG": cfgp})
+    rc, out, rows = T.run_concurrent(ctx, shape, tag="mconc%d" % idx, race=True)
     if vlib.compile_failed(out):
         raise vlib.Inconclusive("metrics concurrent overlay does not compile against the working tree:\n" + out[-3000:])
     races = parse_races(out)
@@ -75,9 +68,6 @@ def concurrent(ctx, shape, idx):
                       "a concurrent scrape panicked ('counter cannot decrease in value') although the clock only advances at "
                       "barriers", {"component": "metrics", "shape": shape, "output": out[-3000:]})
         return
-    rows = []
-    if os.path.exists(outp):
-        rows = vlib.read_ndjson(outp)
     if not rows or rows[-1].get("ev") != "Done":
         if races:
             return            # the run was cut short by the race detector's verdict; already reported
@@ -91,11 +81,13 @@ def concurrent(ctx, shape, idx):
     ctx.cov["distinct_nontrivial"] += shape["phases"]
     ctx.cov.setdefault("metrics_concurrent", []).append(
         {"shape": shape, "events": res["events"], "concurrent_gathers": done.get("gathers"), "conns": done.get("conns"),
+         "burst_rounds_concurrent_first_opens": done.get("bursts"),
          "accepted": res["ntraces"], "race_reports": len(races)})
     for kind, tn, row in res["violations"][:1]:
         ctx.violation({"module": "metrics", "kind": "non-linearizable", "what": kind},
                       "tunnel-time totals after quiescence differ from every sequential order of the concurrent calls (%s): "
-                      "observed %s" % (T.KIND_TEXT.get(kind, kind), json.dumps({k: v for k, v in row.items() if k != "ev"})[:400]),
+                      "observed %s after %s" % (T.KIND_TEXT.get(kind, kind), json.dumps({k: v for k, v in row.items() if k != "ev"})[:400],
+                                                T.schedule_text(traces[tn][:T.row_index(traces[tn], row) + 1])[-500:]),
                       {"component": "metrics", "shape": shape, "kind": kind, "row": row})
 
 
